@@ -83,6 +83,10 @@ def extend(arr: List[Any], length: int) -> List[Any]:
 
 
 def extend_all(lists: List[List[Any]]) -> List[List[Any]]:
+    if any(len(part) == 0 for part in lists):
+        # One part has no variant at all (recursion cut off on a required property):
+        # there is nothing to combine.
+        return [[] for _ in lists]
     max_len = max(len(part) for part in lists)
     max_len = min(1000, max_len)
     return [extend(part, max_len) for part in lists]
